@@ -58,6 +58,8 @@ fn main() {
         return;
     }
     std::panic::set_hook(Box::new(|_| {}));
+    // no progress for this long (wall time) = a hung case: see `world::start_watchdog`
+    start_watchdog(std::env::var("TRH_HANG_MS").ok().and_then(|v| v.parse().ok()).unwrap_or(5000));
     let text = std::fs::read_to_string(&args[1]).expect("read ops file");
     // `--annotate <file>`: write the op file back with `settle`/`dropall` expanded into the polls
     // and drops actually performed and the implementation's observed choices appended (` @k=v`)
@@ -86,6 +88,9 @@ fn main() {
             ops.push(l.to_string());
         }
         writeln!(out, "case {}", n).unwrap();
+        // everything up to here is out of the process before the case runs (the watchdog cannot flush this buffer)
+        out.flush().unwrap();
+        watch_case(&n);
         begin_case();
         let header = line.to_string();
         let r = std::panic::catch_unwind(std::panic::AssertUnwindSafe(|| {
@@ -111,6 +116,7 @@ fn main() {
                 writeln!(a, "{}", l).unwrap();
             }
             writeln!(a, "end").unwrap();
+            a.flush().unwrap();
         }
         if r.is_err() {
             writeln!(out, "#harness-panic").unwrap();
